@@ -84,6 +84,8 @@ func TestC04Controlled(t *testing.T) {
 	p.wRegister, p.wUnregister = 2, 1
 	p.slowPct, p.wReleaseCB = 15, 1
 	p.shutdownPct = 20 // the monitor exits with error events still queued behind a slow callback: they are still delivered
+	p.minWatch = 0     // no watching source: no monitor; EnableVerification verifies the one and only config on every call
+	p.wEnable = 2
 	vrt.Check(t, vrt.Prop[Scenario]{
 		ID: "C04", Name: "controlled",
 		Rule: "histories of 1..14 operations whose stacked results alternate between valid and invalid (negative Limit), blocking and not, under every combination of SkipInitialVerification / DelayInitialVerification, with the monitor parked inside Verify, right after the store or right before it answers while readers view / register and while some blocking callers give up (context cancelled in the window); " +
